@@ -817,3 +817,130 @@ Proof.
     unfold export_one at 1. rewrite P. simpl. destruct (xattrs_accepts _ F 0%N) as [[[os ans] cs] ->]. simpl.
     destruct (IH H2) as [outs ->]. simpl. eauto.
 Qed.
+
+(* ------------------------------------------------------------------------------------------ *)
+(* the identity rendering, rejections, the shared package, class-style construction            *)
+(* ------------------------------------------------------------------------------------------ *)
+Section OanInd.
+  Variable P : oan -> Prop.
+  Hypothesis HOp : forall n, P (OOp n).
+  Hypothesis HDc : forall n i sw, P (ODc n i sw).
+  Hypothesis HAc : forall n a b k, P (OAc n a b k).
+  Hypothesis HTran : forall n a b, P (OTran n a b).
+  Hypothesis HNoise : forall n p q s a b k, P (ONoise n p q s a b k).
+  Hypothesis HSweep : forall n v sw l, Forall P l -> P (OSweep n v sw l).
+  Hypothesis HMonte : forall n k sd l, Forall P l -> P (OMonte n k sd l).
+  Hypothesis HCustom : forall n c, P (OCustom n c).
+  Fixpoint oan_ind' (o : oan) : P o :=
+    match o with
+    | OOp n => HOp n
+    | ODc n i sw => HDc n i sw
+    | OAc n a b k => HAc n a b k
+    | OTran n a b => HTran n a b
+    | ONoise n p q s a b k => HNoise n p q s a b k
+    | OSweep n v sw l =>
+        HSweep n v sw l ((fix go l : Forall P l :=
+                            match l with [] => Forall_nil P | x :: l' => Forall_cons x (oan_ind' x) (go l') end) l)
+    | OMonte n k sd l =>
+        HMonte n k sd l ((fix go l : Forall P l :=
+                            match l with [] => Forall_nil P | x :: l' => Forall_cons x (oan_ind' x) (go l') end) l)
+    | OCustom n c => HCustom n c
+    end.
+End OanInd.
+
+Lemma map_id_forall {A} (f : A -> A) l : Forall (fun x => f x = x) l -> map f l = l.
+Proof. induction 1; simpl; congruence. Qed.
+Lemma map_osweep_id s : map_osweep (fun f => f) s = s.
+Proof. destruct s; simpl; try reflexivity. rewrite map_id. reflexivity. Qed.
+Lemma map_oan_id o : map_oan (fun f => f) o = o.
+Proof.
+  induction o using oan_ind'; cbn [map_oan]; rewrite ?map_osweep_id; try reflexivity.
+  - rewrite (map_id_forall _ _ H). reflexivity.
+  - rewrite (map_id_forall _ _ H). reflexivity.
+Qed.
+Lemma map_oan_id_list l : map (map_oan (fun f => f)) l = l.
+Proof. apply map_id_forall. apply Forall_forall. intros o _. apply map_oan_id. Qed.
+
+Lemma traverse_error {A B} (f : A -> result B) l x : In x l -> (exists e, f x = Error e) -> exists e, traverse f l = Error e.
+Proof.
+  induction l as [|y l IH]; simpl; intros Hin [e He]; [contradiction|]. destruct Hin as [->|Hin].
+  - rewrite He. simpl. eauto.
+  - destruct (f y); simpl; [|eauto]. destruct (IH Hin (ex_intro _ e He)) as [e' ->]. simpl. eauto.
+Qed.
+
+Lemma export_all_rejects l s : In s l -> one_scalar_port (tb_ports (s_tb s)) = false -> exists e, export_all l = Error e.
+Proof.
+  intros Hin HP. unfold export_all. destruct (seq_fold xmod _ _) as [st|e]; simpl; [|eauto].
+  apply (traverse_error _ _ s Hin). unfold export_one. rewrite HP. simpl. eauto.
+Qed.
+
+Lemma export_all_pkg l outs : ids_functional (universe l) = true -> export_all l = Ok outs ->
+  exists pkg, NoDup (pkg_names pkg) /\ incl pkg (universe l) /\
+    Forall2 (fun s o => o_pkg o = pkg /\ o_top o = mod_name (tb_mod (s_tb s)) /\
+                        count_str (o_top o) (pkg_names pkg) = 1 /\ In (mod_id (tb_mod (s_tb s)), o_top o) pkg) l outs.
+Proof.
+  intros HF H. unfold export_all in H. inv_bind H. rename r into st. exists (done st).
+  destruct (package_ok _ _ HF E) as [ND [HI M]]. split; [exact ND|]. split; [exact HI|].
+  assert (G : forall l', incl l' l -> forall outs', traverse (export_one (done st)) l' = Ok outs' ->
+            Forall2 (fun s o => o_pkg o = done st /\ o_top o = mod_name (tb_mod (s_tb s)) /\
+                                count_str (o_top o) (pkg_names (done st)) = 1 /\
+                                In (mod_id (tb_mod (s_tb s)), o_top o) (done st)) l' outs').
+  { induction l' as [|s l' IH]; intros Hi outs' HT; simpl in HT.
+    - inversion HT; subst. constructor.
+    - inv_bind HT. inv_bind HT. inversion HT; subst. constructor; [|apply IH; [intros x Hx; apply Hi; right; exact Hx|exact E1]].
+      pose proof (M s (Hi s (or_introl eq_refl))) as Hin.
+      unfold export_one in E0. destruct (one_scalar_port (tb_ports (s_tb s))); simpl in E0; [|discriminate].
+      inv_bind E0. destruct r1 as [[os ans] cs]. inversion E0; subst. simpl.
+      split; [reflexivity|]. split; [reflexivity|]. split; [|exact Hin].
+      apply count_nodup; [exact ND|]. unfold pkg_names. apply in_map_iff. eexists. split; [|exact Hin]. reflexivity. }
+  apply (G l (incl_refl l) outs H).
+Qed.
+
+(* shape of an exported sweep / Monte-Carlo analysis: the inner analyses are the exports of the inner list *)
+Lemma xan_sweep_inv inner v sw n k o k' : xan (ASweep inner v sw n) k = Ok (o, k') ->
+  exists sw' os, o = OSweep (fst (pick_name n k)) (xvar v) sw' os /\ xsweep sw = Ok sw' /\
+                 thread xan inner (snd (pick_name n k)) = Ok (os, k') /\ List.length os = List.length inner.
+Proof.
+  rewrite xan_sweep. destruct (pick_name n k) as [nm k1]. intros H. inv_bind H. inv_bind H. inversion H; subst.
+  destruct r0 as [os kb]. simpl. exists r, os. repeat split; try assumption.
+  apply (thread_length _ _ _ _ E0).
+Qed.
+Lemma xan_monte_inv inner np n k o k' : xan (AMonte inner np n) k = Ok (o, k') ->
+  exists os, o = OMonte (fst (pick_name n k)) np 0 os /\
+             thread xan inner (snd (pick_name n k)) = Ok (os, k') /\ List.length os = List.length inner.
+Proof.
+  rewrite xan_monte. destruct (pick_name n k) as [nm k1]. intros H. inv_bind H. inv_bind H. inversion H; subst.
+  destruct r as [os kb]. simpl. exists os. repeat split; try assumption.
+  apply (thread_length _ _ _ _ E).
+Qed.
+
+Lemma partition_lengths l :
+  (List.length (ans_of l) + List.length (ctrls_of l) + List.length (opts_of l))%nat = List.length l.
+Proof. induction l as [|[a|c|n v] l IH]; simpl; lia. Qed.
+
+(* the attributes of a class-style definition: the SimAttr-valued entries in definition order, named after their keys *)
+Definition class_attr (e : string * centry) : list attr :=
+  if (String.eqb (fst e) "tb" || String.eqb (fst e) "Tb" || String.eqb (fst e) "name")%bool then []
+  else match snd e with
+       | CeAttr a => [if String.eqb (fst e) "_" then a else set_name (fst e) a]
+       | _ => []
+       end.
+Lemma class_scan_attrs es : forall tb acc r, class_scan es tb acc = Ok r -> snd r = acc ++ flat_map class_attr es.
+Proof.
+  induction es as [|[key v] es IH]; intros tb acc r H; cbn [class_scan] in H.
+  - inversion H; subst. simpl. symmetry. apply app_nil_r.
+  - destruct (mem_str key protected_names); [discriminate|].
+    unfold class_attr at 1. cbn [flat_map fst snd].
+    destruct (String.eqb key "tb" || String.eqb key "Tb")%bool eqn:ET.
+    + destruct v; try discriminate. simpl. apply (IH _ _ _ H).
+    + simpl. destruct (String.eqb key "name") eqn:EN; [simpl; apply (IH _ _ _ H)|].
+      destruct v; simpl; try apply (IH _ _ _ H).
+      rewrite (IH _ _ _ H), <- app_assoc. reflexivity.
+Qed.
+Lemma construct_class es s : construct (BClass es) = Ok s ->
+  s_attrs s = flat_map class_attr es /\ one_scalar_port (tb_pre_ports (s_tb s)) = true.
+Proof.
+  simpl. intros H. inv_bind H. destruct (fst r) as [t|] eqn:ET; [|discriminate].
+  destruct (one_scalar_port (tb_pre_ports t)) eqn:EP; [|discriminate]. inversion H; subst. simpl.
+  split; [|exact EP]. rewrite (class_scan_attrs _ _ _ _ E). reflexivity.
+Qed.
